@@ -11,6 +11,8 @@ package c19
 import (
 	"encoding/json"
 	"fmt"
+	stdmath "math"
+	"math/big"
 	"math/rand"
 	"sort"
 	"strings"
@@ -38,7 +40,46 @@ import (
 
 const nAppAcc = 6
 
+// the fee and gas limit a transaction DECLARES (TxFeeSkipper never deducts a fee, so any amount passes)
+type feeGas struct {
+	amount *big.Int
+	gas    uint64
+}
+
+func (f feeGas) String() string {
+	if f.amount == nil {
+		return "no fee"
+	}
+	return fmt.Sprintf("fee %sugrain gas %d", f.amount, f.gas)
+}
+
+// the whole range: none, realistic, a gas price at the edge of the class band (MaxInt64-3 .. MaxInt64), beyond int64
+func genFee(r *rand.Rand) feeGas {
+	gas := []uint64{200000, 400000, 1000000}[r.Intn(3)]
+	g := new(big.Int).SetUint64(gas)
+	mul := func(p int64) *big.Int { return new(big.Int).Mul(g, big.NewInt(p)) }
+	switch r.Intn(10) {
+	case 0, 1, 2:
+		return feeGas{}
+	case 3:
+		return feeGas{big.NewInt(int64(r.Intn(5000))), gas}
+	case 4:
+		return feeGas{mul(int64(1 + r.Intn(100))), gas}
+	case 5:
+		return feeGas{mul(43), gas}
+	case 6:
+		return feeGas{mul(stdmath.MaxInt64 - int64(r.Intn(6))), gas}
+	case 7:
+		return feeGas{mul(stdmath.MaxInt64), gas}
+	case 8:
+		return feeGas{new(big.Int).Lsh(big.NewInt(1), uint(64+r.Intn(150))), gas}
+	default:
+		return feeGas{mul(1 << 40), gas}
+	}
+}
+
 type appTx struct {
+	fee     string
 	bz      []byte
 	signers []sn
 	urls    []string
@@ -47,7 +88,8 @@ type appTx struct {
 
 type appHist struct {
 	app       *palomaapp.App
-	mp        *palomamempool.PriorityNonceMempool[int64]
+	mp        sdkmempool.Mempool // app.Mempool(): must be Paloma's PriorityNonceMempool[int64]
+	built     string             // how the application was built
 	valHash   []byte
 	height    int64
 	accNums   []uint64
@@ -65,21 +107,35 @@ type appHist struct {
 // an ABCI call of the real application failed for a reason the history does not explain (e.g. the pool panicked
 // inside baseapp, which recovers it into an error)
 func (h *appHist) fail(e *env, what string) {
-	e.run.Violate("C19:app-abci-failure", what, map[string]any{"app_history": h.log})
+	e.run.Violate("C19:app-abci-failure", what, map[string]any{"app_built_as": h.built, "app_history": h.log})
 	h.dead = true
 }
 
 func (e *env) addr(i int) sdk.AccAddress { return sdk.AccAddress(e.pubs[i].Address()) }
 
-func (e *env) newAppHist(r *rand.Rand) *appHist {
-	h := &appHist{app: newApp(), pend: map[sn]*appTx{}, premise: true, feats: map[string]bool{}}
-	mp, ok := h.app.Mempool().(*palomamempool.PriorityNonceMempool[int64])
-	if !ok {
-		e.run.Violate("C19:app-mempool-type", fmt.Sprintf("the application's mempool (BaseApp.Mempool(), where CheckTx inserts) is %T, not app/mempool.PriorityNonceMempool[int64]", h.app.Mempool()),
-			map[string]any{"app": "app.New(...).Mempool()"})
-		return nil
+// maxTxs == noPalomad: app.New with no base-app options; otherwise the way cmd/palomad builds it with
+// mempool.max-txs = maxTxs in app.toml (-1 is the SDK default: "no-op mempool")
+const noPalomad = -99
+
+func (e *env) newAppHist(r *rand.Rand) *appHist { return e.newAppHistWith(r, noPalomad) }
+
+func (e *env) newAppHistWith(r *rand.Rand, maxTxs int) *appHist {
+	h := &appHist{pend: map[sn]*appTx{}, premise: true, feats: map[string]bool{}, built: "app.New(logger, db, nil, true, appOpts)"}
+	if maxTxs == noPalomad {
+		h.app = newApp()
+	} else {
+		h.app = newPalomadApp(maxTxs)
+		h.built = fmt.Sprintf("cmd/palomad newApp: app.New(..., append(server.DefaultBaseappOptions(appOpts), baseapp.SetOptimisticExecution())...) with mempool.max-txs = %d", maxTxs)
+		h.feats[fmt.Sprintf("built-like-palomad max-txs=%d", maxTxs)] = true
 	}
-	h.mp = mp
+	h.mp = h.app.Mempool()
+	if _, ok := h.mp.(*palomamempool.PriorityNonceMempool[int64]); !ok {
+		// reported; the history goes on through the Mempool interface so that the consequences (CheckTx admits, the pool
+		// does not hold / does not order) are reported with their inputs as well
+		e.run.Violate("C19:app-mempool-type", fmt.Sprintf("the application's mempool (BaseApp.Mempool(), where CheckTx inserts and PrepareProposal selects) is %T, not app/mempool.PriorityNonceMempool[int64]; application built as: %s",
+			h.mp, h.built), map[string]any{"app_built_as": h.built, "mempool": fmt.Sprintf("%T", h.mp)})
+		h.feats["foreign-mempool"] = true
+	}
 	pv := mock.NewPV()
 	pub, _ := pv.GetPubKey()
 	valSet := cmttypes.NewValidatorSet([]*cmttypes.Validator{cmttypes.NewValidator(pub, 1)})
@@ -152,7 +208,7 @@ func (e *env) appMsgs(kind int, signers []int) []sdk.Msg {
 	return []sdk.Msg{send(signers[0])}
 }
 
-func (h *appHist) build(e *env, kind int, signers []sn) *appTx {
+func (h *appHist) build(e *env, kind int, signers []sn, fee feeGas) *appTx {
 	var who []int
 	var accNums, seqs []uint64
 	var privs []cryptotypes.PrivKey
@@ -168,7 +224,15 @@ func (h *appHist) build(e *env, kind int, signers []sn) *appTx {
 	}
 	msgs := e.appMsgs(kind, who)
 	txc := h.app.TxConfig()
-	tx, err := simtestutil.GenSignedMockTx(rand.New(rand.NewSource(1)), txc, msgs, sdk.NewCoins(), 400000, appChainID, accNums, seqs, privs...)
+	coins := sdk.NewCoins()
+	if fee.amount != nil && fee.amount.Sign() > 0 {
+		coins = sdk.NewCoins(sdk.NewCoin("ugrain", math.NewIntFromBigInt(fee.amount)))
+	}
+	gas := fee.gas
+	if gas == 0 {
+		gas = 400000
+	}
+	tx, err := simtestutil.GenSignedMockTx(rand.New(rand.NewSource(1)), txc, msgs, coins, gas, appChainID, accNums, seqs, privs...)
 	if err != nil {
 		panic(err)
 	}
@@ -186,7 +250,7 @@ func (h *appHist) build(e *env, kind int, signers []sn) *appTx {
 			panic("signature order differs from the signer list")
 		}
 	}
-	at := &appTx{bz: bz, signers: signers}
+	at := &appTx{bz: bz, signers: signers, fee: fee.String()}
 	for _, m := range msgs {
 		at.urls = append(at.urls, emit.Str(sdk.MsgTypeURL(m)))
 	}
@@ -221,7 +285,7 @@ func (h *appHist) after2(e *env, term string, entry any, check bool) {
 func (h *appHist) countCheck(e *env) {
 	if cnt := h.mp.CountTx(); cnt != len(h.pend) {
 		e.run.Violate("C19:count-differs-from-pending", fmt.Sprintf("application pool: CountTx()=%d but %d admitted transactions are pending", cnt, len(h.pend)),
-			map[string]any{"app_history": h.log})
+			map[string]any{"app_built_as": h.built, "app_history": h.log})
 	}
 }
 
@@ -231,11 +295,15 @@ func seqMismatch(code uint32, codespace, log string) bool {
 	return (code == 32 && codespace == "sdk") || (code != 0 && strings.Contains(log, "account sequence mismatch"))
 }
 
-func (h *appHist) check(e *env, kind int, signers []sn) *appTx {
+func (h *appHist) check(e *env, kind int, signers []sn, fee ...feeGas) *appTx {
 	if h.dead {
 		return nil
 	}
-	at := h.build(e, kind, signers)
+	var fg feeGas
+	if len(fee) > 0 {
+		fg = fee[0]
+	}
+	at := h.build(e, kind, signers, fg)
 	res, err := h.app.CheckTx(&abci.RequestCheckTx{Tx: at.bz, Type: abci.CheckTxType_New})
 	if err != nil {
 		h.fail(e, "CheckTx: "+err.Error())
@@ -253,7 +321,7 @@ func (h *appHist) check(e *env, kind int, signers []sn) *appTx {
 			h.feats["admitted-duplicate"] = true
 			if h.disciplin {
 				e.run.Violate("C19:admission-admits-duplicate", fmt.Sprintf("CheckTx admitted (sender %d, nonce %d) while a transaction with that sender and sequence is pending, although every pending transaction was re-checked after each block",
-					key.s, key.n), map[string]any{"app_history": h.log})
+					key.s, key.n), map[string]any{"app_built_as": h.built, "app_history": h.log})
 			}
 		}
 		h.pend[key] = at
@@ -268,7 +336,7 @@ func (h *appHist) check(e *env, kind int, signers []sn) *appTx {
 	}
 	e.run.Count("app-check", fmt.Sprintf("kind%d ok=%v", kind, ok))
 	h.after(e, fmt.Sprintf("C19.PCheck %s %s %s %s", snTerm(at.signers), emit.List(at.urls), emit.ZI(at.prio), emit.Bool(ok)),
-		map[string]any{"op": "check", "kind": kind, "signers": fmt.Sprint(at.signers), "priority": at.prio, "ok": ok})
+		map[string]any{"op": "check", "kind": kind, "declared": at.fee, "signers": fmt.Sprint(at.signers), "priority_by_class": at.prio, "ok": ok})
 	if ok {
 		return at
 	}
@@ -344,7 +412,7 @@ func (h *appHist) prepare(e *env) [][]byte {
 	if h.premise && consecutive {
 		// every pending transaction continues its sender's committed sequence: nothing is skipped or removed,
 		// the proposal IS the Select order and the whole property applies to it
-		oracleSN(e, out, h.pendPrio(), map[string]any{"app_history": append(append([]any{}, h.log...), entry)}, true)
+		oracleSN(e, out, h.pendPrio(), map[string]any{"app_built_as": h.built, "app_history": append(append([]any{}, h.log...), entry)}, true)
 		h.feats["proposal-checked-by-oracle"] = true
 	}
 	e.run.Count("app-op", "prepare")
@@ -417,12 +485,12 @@ func (h *appHist) selectObs(e *env, resync bool) []sn {
 	entry := map[string]any{"op": "select", "out": fmt.Sprint(out), "panicked": panicked}
 	if h.premise && !resync {
 		if panicked {
-			e.run.Violate("C19:select-panics", "Select/Next panicked on the application's pool", map[string]any{"app_history": append(append([]any{}, h.log...), entry)})
+			e.run.Violate("C19:select-panics", "Select/Next panicked on the application's pool", map[string]any{"app_built_as": h.built, "app_history": append(append([]any{}, h.log...), entry)})
 		} else {
-			oracleSN(e, out, h.pendPrio(), map[string]any{"app_history": append(append([]any{}, h.log...), entry)}, true)
+			oracleSN(e, out, h.pendPrio(), map[string]any{"app_built_as": h.built, "app_history": append(append([]any{}, h.log...), entry)}, true)
 		}
 	} else if !panicked && !resync {
-		oracleSN(e, out, h.pendPrio(), map[string]any{"app_history": append(append([]any{}, h.log...), entry)}, false)
+		oracleSN(e, out, h.pendPrio(), map[string]any{"app_built_as": h.built, "app_history": append(append([]any{}, h.log...), entry)}, false)
 	}
 	e.run.Count("app-op", "select")
 	h.after2(e, fmt.Sprintf("C19.PSelect %s", snTerm(out)), entry, !resync)
@@ -490,12 +558,16 @@ func (h *appHist) finish(e *env) {
 	sort.Strings(fs)
 	e.run.Count("history", "app")
 	e.run.Case(fmt.Sprintf("C19.CApp %s %s", emit.List(h.initSeqs), emit.List(h.terms)), len(fs) > 0,
-		map[string]any{"kind": "app", "features": fs, "disciplined": h.disciplin, "history": h.log})
+		map[string]any{"kind": "app", "app_built_as": h.built, "features": fs, "disciplined": h.disciplin, "history": h.log})
 }
 
 func (e *env) genAppHistory() {
 	r := e.run.Rng
-	h := e.newAppHist(r)
+	built := noPalomad
+	if r.Intn(8) == 0 { // the way cmd/palomad builds it
+		built = []int{-1, 0, 5000}[r.Intn(3)]
+	}
+	h := e.newAppHistWith(r, built)
 	if h == nil {
 		return
 	}
@@ -525,7 +597,11 @@ func (e *env) genAppHistory() {
 				}
 				signers = append(signers, sn{s2, n2})
 			}
-			if t := h.check(e, kind, signers); t != nil {
+			fee := genFee(r)
+			if fee.amount != nil {
+				h.feats["declared-fee"] = true
+			}
+			if t := h.check(e, kind, signers, fee); t != nil {
 				all = append(all, t)
 			}
 		case x < 70:
@@ -576,8 +652,17 @@ func (e *env) genAppHistory() {
 //     verification of it fails (second signer's sequence is ahead) and the handler removes it from the pool.
 func (e *env) appWitnesses() {
 	r := rand.New(rand.NewSource(19))
-	for _, script := range []string{"A", "B", "C"} {
-		h := e.newAppHist(r)
+	for _, script := range []string{"A", "B", "C", "D", "P-1", "P0", "P5000"} {
+		built := noPalomad
+		switch script {
+		case "P-1":
+			built = -1
+		case "P0":
+			built = 0
+		case "P5000":
+			built = 5000
+		}
+		h := e.newAppHistWith(r, built)
 		if h == nil {
 			return
 		}
@@ -602,7 +687,7 @@ func (e *env) appWitnesses() {
 			e.run.Count("app-witness", fmt.Sprintf("%s: duplicate admitted=%v", script, dup != nil))
 			if (dup != nil) != (script == "A") {
 				e.run.Violate("C19:admission-witness", fmt.Sprintf("script %s: a second transaction with a pending (sender, sequence) was admitted=%v", script, dup != nil),
-					map[string]any{"app_history": h.log})
+					map[string]any{"app_built_as": h.built, "app_history": h.log})
 			}
 			h.selectObs(e, false)
 			if script == "A" {
@@ -622,6 +707,18 @@ func (e *env) appWitnesses() {
 			h.selectObs(e, false)
 			prop := h.decodeKeys(e, h.prepare(e))
 			e.run.Count("app-witness", fmt.Sprintf("C: proposal %v, pool after it %d", prop, h.mp.CountTx()))
+		case "D", "P-1", "P0", "P5000":
+			// D: ordinary transactions DECLARING huge fees (gas price at and beyond MaxInt64) against other senders'
+			//    class transactions; P*: the application built the way cmd/palomad builds it. One pending transaction per
+			//    sender, admitted in the reverse of the order the property demands.
+			huge := new(big.Int).Mul(big.NewInt(400000), big.NewInt(stdmath.MaxInt64))
+			h.check(e, 0, []sn{{0, h.next[0]}}, feeGas{huge, 400000})
+			h.check(e, 4, []sn{{1, h.next[1]}, {2, h.next[2]}}, feeGas{new(big.Int).Lsh(big.NewInt(1), 200), 400000})
+			h.check(e, 3, []sn{{3, h.next[3]}})
+			h.check(e, 2, []sn{{4, h.next[4]}})
+			h.check(e, 1, []sn{{5, h.next[5]}})
+			h.selectObs(e, false)
+			h.prepare(e)
 		}
 		h.feats["witness-"+script] = true
 		h.finish(e)
